@@ -51,6 +51,7 @@ fn main() {
         "C17" => dgh::c17::run(&tier, seed),
         "C18" => dgh::c18::run(&tier, seed),
         "C19" => dgh::c19::run(&tier, seed),
+        "C05" => dgh::c05::run(&tier, seed),
         "C02" => dgh::walkprops::run_c02(&tier, seed),
         _ => {
           eprintln!("unknown property {}", prop);
